@@ -87,6 +87,35 @@ inductive Exit where
   | oob
   deriving Repr, DecidableEq
 
+/-- token-length extension bytes that belong to the header collected in `read_header` -/
+def tokExtOf (b0 : Nat) : Nat := if b0 % 16 = 13 then 1 else if b0 % 16 = 14 then 2 else 0
+
+/-- `partial_pdu->alloc_size < size && !coap_pdu_resize(partial_pdu, size)`: 0 = the growth failed -/
+def growTo (p0 : OPdu) (size : Nat) (h : Heap) : Nat × OPdu × Heap :=
+  if p0.allocSize < size then resize p0 size h else (1, p0, h)
+
+/-- the header `rh` (`hl = hdr_size + tok_ext_bytes` bytes) is complete: the size is known, the receive PDU is allocated, STORED
+IN THE SESSION, grown if the first buffer is too small; a message that is complete with its header is dispatched at once.
+`Exit.ok` = the loop goes on. -/
+def headerDone (maxRcv : Nat) (s : RSess) (w : RW) (rh : Bytes) (hdrSize hl : Nat) : Exit × RSess × RW :=
+  match parseSizeTcp rh with
+  | R.ok size =>
+    if size > Stream.maxRx then (.fail, s, w) else
+    -- session->partial_pdu = coap_pdu_init(0, 0, 0, coap_session_max_pdu_rcv_size(session))
+    match pduInit maxRcv w.h with
+    | (none, h1) => (.fail, s, { w with h := h1 })
+    | (some p0, h1) =>
+      -- the PDU is ALREADY the session's when the growth fails: coap_session_disconnected_lkd releases it
+      let r := growTo p0 size h1
+      if r.1 = 0 then (.fail, { s with ppdu := some ⟨r.2.1, 0, 0, []⟩ }, { w with h := r.2.2 }) else
+      if size = 0 then
+        let d := dispatchDelete (Stream.parsePdu hdrSize (rh.take hl)).toOption.isSome r.2.1
+                   { s with rh := [], partialRead := 0, ppdu := none } { w with h := r.2.2 }
+        (.ok, d.1, d.2)
+      else
+        (.ok, { s with rh := [], partialRead := hl, ppdu := some ⟨r.2.1, hdrSize, size, rh.take hl⟩ }, { w with h := r.2.2 })
+  | _ => (.oob, s, w)
+
 /-- the `while (bytes_read > 0)` loop over the bytes `bs` one `l_read` returned; `maxRcv` = coap_session_max_pdu_rcv_size -/
 def loop (maxRcv : Nat) : (fuel : Nat) → RSess → RW → Bytes → Exit × RSess × RW
   | 0, s, w, _ => (.ok, s, w)
@@ -109,32 +138,13 @@ def loop (maxRcv : Nat) : (fuel : Nat) → RSess → RW → Bytes → Exit × RS
         match rd s.rh 0 with
         | R.ok b0 =>
           let hdrSize := headerSize .tcp b0
-          let tkl := b0 % 16
-          let tokExt := if tkl = 13 then 1 else if tkl = 14 then 2 else 0
-          let len := hdrSize + tokExt - s.partialRead
+          let len := hdrSize + tokExtOf b0 - s.partialRead
           let n := min len bs.length
           if s.partialRead + n > Stream.rhCap then (.oob, s, w) else
           let rh := s.rh.take s.partialRead ++ bs.take n
           if n = len then
-            match parseSizeTcp rh with
-            | R.ok size =>
-              if size > Stream.maxRx then (.fail, s, w) else
-              -- session->partial_pdu = coap_pdu_init(0, 0, 0, coap_session_max_pdu_rcv_size(session))
-              match pduInit maxRcv w.h with
-              | (none, h1) => (.fail, s, { w with h := h1 })
-              | (some p0, h1) =>
-                -- alloc_size < size && !coap_pdu_resize(partial_pdu, size): the PDU is ALREADY the session's
-                let r := if p0.allocSize < size then resize p0 size h1 else (1, p0, h1)
-                if r.1 = 0 then (.fail, { s with ppdu := some ⟨r.2.1, 0, 0, []⟩ }, { w with h := r.2.2 }) else
-                let buf := rh.take (hdrSize + tokExt)
-                if size = 0 then
-                  let d := dispatchDelete (Stream.parsePdu hdrSize buf).toOption.isSome r.2.1
-                             { s with rh := [], partialRead := 0, ppdu := none } { w with h := r.2.2 }
-                  loop maxRcv fuel d.1 d.2 (bs.drop n)
-                else
-                  loop maxRcv fuel { s with rh := [], partialRead := hdrSize + tokExt,
-                                            ppdu := some ⟨r.2.1, hdrSize, size, buf⟩ } { w with h := r.2.2 } (bs.drop n)
-            | _ => (.oob, s, w)
+            let r := headerDone maxRcv s w rh hdrSize (hdrSize + tokExtOf b0)
+            if r.1 = .ok then loop maxRcv fuel r.2.1 r.2.2 (bs.drop n) else r
           else
             loop maxRcv fuel { s with rh := rh, partialRead := s.partialRead + n } w (bs.drop n)
         | _ => (.oob, s, w)
